@@ -549,9 +549,11 @@ def bld_pred(which):
                 if op[0] == "J":
                     cid += 1
                     tok_of[cid] = int(op[1:].split(":")[1])
-            elif op[0] in "cE":
+            elif op[0] in "cEA":
                 cid += 1
                 tok_of[cid] = int(op[1:])
+                if op[0] == "A":
+                    finished.add(cid)      # an abortive client: its service call ends by itself
                 if op[0] == "E":
                     backoff = True
             elif op[0] == "f":
